@@ -2,6 +2,7 @@
 (C11, C12, C18).  Real InMemMap / SqliteMap on real files, compared with the RefStore model."""
 import math
 import os
+import random
 import shutil
 import tempfile
 
@@ -41,7 +42,14 @@ def gen_points(rng, n, mag, latlon):
 
 
 def gen_build_history(rng, latlon, mag, sqlite_features=True, queries=("nodes", "edges"), restarts=False,
-                      n=None, safe_commit_p=0.8):
+                      n=None, safe_commit_p=0.8, bulk=True, town_p=0.03):
+    # SIZE as a swarm dimension: 3 % of the build histories load a town (130-320 nodes) through the bulk calls, so that
+    # batch sizes, statement limits and windows which a handful of rows never reach are met (side stream: the main
+    # PRNG is not consumed by the decision)
+    hs = random.Random(gen.derive("town", repr(rng.getstate())))
+    town = n is None and bulk and hs.random() < town_p
+    if town:
+        n = hs.randint(130, 320)
     n = n or rng.randint(2, 9)
     pts = gen_points(rng, n, mag, latlon)
     if n >= 3 and rng.random() < 0.15:
@@ -49,7 +57,7 @@ def gen_build_history(rng, latlon, mag, sqlite_features=True, queries=("nodes", 
         i, j = rng.sample(range(n), 2)
         pts[j] = pts[i]
     # dedupe coincident nodes most of the time
-    labels = rng.sample(range(0, 60), n) if rng.random() < 0.7 else rng.sample(range(1, 10 ** 9), n)
+    labels = rng.sample(range(0, 60 if n <= 40 else 20 * n), n) if rng.random() < 0.7 else rng.sample(range(1, 10 ** 9), n)
     ops = []
     edges = set()
     und = []
@@ -68,8 +76,9 @@ def gen_build_history(rng, latlon, mag, sqlite_features=True, queries=("nodes", 
     cand_edges = list(dict.fromkeys(cand_edges))
     # nodes
     todo = list(range(n))
-    if sqlite_features and rng.random() < 0.35:
-        k = rng.randint(1, n)
+    if town or (sqlite_features and rng.random() < 0.35):
+        k = rng.randint(1, n) if not town else rng.choice([n, n, rng.randint(129, n), 128, 129, 256, 257])
+        k = min(k, n)
         ops.append({"op": "add_nodes", "nodes": [[labels[i], list(pts[i])] for i in todo[:k]]})
         todo = todo[k:]
     for i in todo:
@@ -87,12 +96,12 @@ def gen_build_history(rng, latlon, mag, sqlite_features=True, queries=("nodes", 
         ops.append({"op": "reindex_nodes"})
     # edges
     rest = list(cand_edges)
-    if sqlite_features and rng.random() < 0.35 and rest:
-        k = rng.randint(1, len(rest))
+    if (town or (sqlite_features and rng.random() < 0.35)) and rest:
+        k = rng.randint(1, len(rest)) if not town else max(1, len(rest) - rng.choice([0, 0, 1, 3]))
         rows = [[labels[a], labels[b]] for a, b in rest[:k]]
         if rng.random() < 0.3:
             rows = [r + [rng.randint(1, 9), rng.randint(0, 3)] for r in rows]      # (a, b, path, pathnum)
-        ops.append({"op": "add_edges", "edges": rows, "no_index": rng.random() < 0.3})
+        ops.append({"op": "add_edges", "edges": rows, "no_index": sqlite_features and rng.random() < 0.3})
         rest = rest[k:]
     for a, b in rest:
         op = {"op": "add_edge", "a": labels[a], "b": labels[b]}
@@ -883,6 +892,12 @@ def gen_C12(rng, tier):
         else:
             cfg["max_dist"] = cfg["max_dist"] * 3
             cfg["max_dist_init"] = 1e12      # unbounded initial radius (None would fall back to max_dist)
+    if len(labels) > 100:
+        # a town: every road is a start candidate (unbounded initial radius), so the session needs a cut-off to stay local
+        cfg["max_dist"] = unit * random.Random(gen.derive("town-cut", len(ops), labels[0])).choice([0.6, 1.0, 1.5])
+        cfg["max_dist_init"] = 1e12
+        if cfg.get("non_emitting_states"):
+            cfg["ne_maxnb"] = 1 + len(labels) % 3
     d["cfg"] = cfg
     d["trace_seed"] = rng.randrange(1 << 30)
     return with_clock(rng, maybe_stale(rng, d, 0.15))
